@@ -90,7 +90,7 @@ def _slices(n, rows_per_chunk, lo=1, hi=None):
 def run(ctx):
     violations = []
     notes = []
-    par = ctx.pick(6, 12)
+    par = ctx.pick(6, 8)
 
     binary = rt.build(ctx)
 
@@ -115,7 +115,7 @@ def run(ctx):
 
     def val(i, p):
         return lambda: rt.validate_obs(ctx, "TraceDebVersion", "TraceDebVersion.cfg", p,
-                                       os.path.join(obsdir, "verdict_%02d.json" % i), name="obs_%02d" % i, timeout=2400)
+                                       os.path.join(obsdir, "verdict_%02d.json" % i), name="obs_%02d" % i, timeout=ctx.pick(2400, 7200))
 
     # ---- T->I tables
     tabdir = ctx.subdir("tables")
@@ -127,7 +127,7 @@ def run(ctx):
         tables.append(out)
         return lambda: rt.table(ctx, "DebVersionTable", "DebVersionTable.cfg", out,
                                 {"VERIF_MAXLEN": maxlen, "VERIF_LO": lo, "VERIF_HI": hi},
-                                name="tab_%s_%d" % (tag, lo), timeout=2400)
+                                name="tab_%s_%d" % (tag, lo), timeout=ctx.pick(2400, 7200))
 
     n3, n4 = n_strings(3), n_strings(4)
     if ctx.quick:
@@ -145,7 +145,7 @@ def run(ctx):
 
     # ---- design (laws on the reference), tables and observation validation: all TLC, side by side
     ljob = lambda: rt.laws(ctx, "DebVersion", "DebVersion_mc.cfg", env={"VERIF_MAXLEN": "2"}, min_states=n_strings(2),
-                           timeout=2400, workers=2)
+                           timeout=ctx.pick(2400, 7200), workers=2)
     vjobs = [val(i, p) for i, p in enumerate(chunks)]
     res = rt.parallel([ljob] + vjobs + tjobs, par)
     mc = res[0]
@@ -163,7 +163,7 @@ def run(ctx):
     def drv(i, g):
         return lambda: rt.drive(ctx, binary, "TestVerifC33Table", os.path.join(outdir, "table_%d.ndjson" % i),
                                 env={"VERIF_TABLES": ",".join(g), "VERIF_MAX_MISMATCH": ctx.pick(20000, 4000)},
-                                timeout=2400)
+                                timeout=ctx.pick(2400, 7200))
     rows = []
     evals = nontrivial = in_scope = mism_in = mism_out = 0
     hist = {"lt": 0, "eq": 0, "gt": 0, "err": 0}
@@ -215,7 +215,7 @@ def run(ctx):
 
     # ---- laws directly on the real outputs
     lrows = rt.drive(ctx, binary, "TestVerifC33Laws", os.path.join(outdir, "laws.ndjson"),
-                     env={"VERIF_LAWLEN": ctx.pick(2, 3), "VERIF_NRAND": ctx.pick(150, 400)}, timeout=2400)
+                     env={"VERIF_LAWLEN": ctx.pick(2, 3), "VERIF_NRAND": ctx.pick(150, 400)}, timeout=ctx.pick(2400, 7200))
     lst = rt.stats_of(lrows)
     for r in lrows:
         if r.get("kind") == "law":
